@@ -33,6 +33,16 @@ const WORK: &[(&str, &str, &str)] = &[
     ("capture_work", "{% set c1 %}{% filter lower %}{% set c2 %}", "{% endset %}{{ c2|upper|trim|string }}{% endfilter %}{% endset %}{{ c1|length }}"),
 ];
 
+const SIDES: &[(&str, &str)] = &[
+    ("noside", ""),
+    ("after_helper_macro", "{{ hp(d) }}"),
+    ("after_helper_every_other_frame", "{% if d % 2 %}{{ hp(d) }}{% endif %}"),
+    ("after_returned_call_block", "{% call w() %}x{% endcall %}"),
+    ("after_include", "{% include 'leaf' %}"),
+    ("after_imported_helper", "{% from 'lib' import ih %}{{ ih() }}"),
+    ("after_filter_and_test", "{{ [d]|map('string')|join }}{{ d is even }}"),
+];
+
 fn shapes(tier: Tier) -> Vec<Shape> {
     let mut v = vec![];
     let max_cycle = tier.pick(2, 3);
@@ -50,20 +60,27 @@ fn shapes(tier: Tier) -> Vec<Shape> {
                 if tier == Tier::Quick && len == 2 && wi == 2 {
                     continue;
                 }
-                let mut src = String::from("{% macro w() %}{{ caller() }}{% endmacro %}");
-                for (i, w) in ws.iter().enumerate() {
-                    let next = (i + 1) % len;
-                    let (_, pre, post) = WRAPPERS[*w];
-                    src.push_str(&format!("{{% macro m{}(d) %}}{}{}{{{{ m{}(d + 1) }}}}{}{}{{% endmacro %}}", i, wpre, pre, next, post, wpost));
+                // what a frame does (and gets back from) before it recurses: the limit must count the
+                // frames on the native stack whatever returned in between
+                for (si, (sname, side)) in SIDES.iter().enumerate() {
+                    if si > 0 && (wi == 2 || (tier == Tier::Quick && len == 2 && wi == 1) || len == 3) {
+                        continue;
+                    }
+                    let mut src = String::from("{% macro w() %}{{ caller() }}{% endmacro %}{% macro hp(v) %}{{ v }}{% endmacro %}");
+                    for (i, w) in ws.iter().enumerate() {
+                        let next = (i + 1) % len;
+                        let (_, pre, post) = WRAPPERS[*w];
+                        src.push_str(&format!("{{% macro m{}(d) %}}{}{}{}{{{{ m{}(d + 1) }}}}{}{}{{% endmacro %}}", i, wpre, pre, side, next, post, wpost));
+                    }
+                    src.push_str("{{ m0(0) }}");
+                    v.push(Shape {
+                        name: format!("macro_cycle[{}] {}{}", ws.iter().map(|w| WRAPPERS[*w].0).collect::<Vec<_>>().join(">"), wname, if si > 0 { format!(" {}", sname) } else { String::new() }),
+                        family: "macro_cycle",
+                        templates: vec![("main".into(), src), ("leaf".into(), "leaf{{ d }}".into()), ("lib".into(), "{% macro ih() %}ih{% endmacro %}".into())],
+                        main: "main".into(),
+                        infinite: true,
+                    });
                 }
-                src.push_str("{{ m0(0) }}");
-                v.push(Shape {
-                    name: format!("macro_cycle[{}] {}", ws.iter().map(|w| WRAPPERS[*w].0).collect::<Vec<_>>().join(">"), wname),
-                    family: "macro_cycle",
-                    templates: vec![("main".into(), src)],
-                    main: "main".into(),
-                    infinite: true,
-                });
             }
         }
     }
@@ -92,7 +109,15 @@ fn shapes(tier: Tier) -> Vec<Shape> {
                     (format!("t{}", i), format!("x{}{{% include 't{}' %}}{}", pre, (i + 1) % len, post))
                 })
                 .collect();
-            v.push(Shape { name: format!("include_cycle[{}]", ps.iter().map(|p| placements[*p].0).collect::<Vec<_>>().join(">")), family: "include_cycle", templates, main: "t0".into(), infinite: true });
+            v.push(Shape { name: format!("include_cycle[{}]", ps.iter().map(|p| placements[*p].0).collect::<Vec<_>>().join(">")), family: "include_cycle", templates: templates.clone(), main: "t0".into(), infinite: true });
+            if len <= 2 {
+                for (sname, side) in [("after_helper_macro", "{% macro hp() %}h{% endmacro %}{{ hp() }}"), ("after_include", "{% include 'leaf' %}"), ("after_imported_helper", "{% from 'lib' import ih %}{{ ih() }}")] {
+                    let mut t2: Vec<(String, String)> = templates.iter().map(|(n, s)| (n.clone(), s.replacen("{% include 't", &format!("{}{{% include 't", side), 1))).collect();
+                    t2.push(("leaf".into(), "leaf".into()));
+                    t2.push(("lib".into(), "{% macro ih() %}ih{% endmacro %}".into()));
+                    v.push(Shape { name: format!("include_cycle[{}] {}", ps.iter().map(|p| placements[*p].0).collect::<Vec<_>>().join(">"), sname), family: "include_cycle", templates: t2, main: "t0".into(), infinite: true });
+                }
+            }
         }
     }
     // family C: import cycles (top-level import of the next template) and macro-level imports
@@ -342,7 +367,7 @@ pub fn main(args: Args) -> i32 {
             level: "exploration",
             tier: args.tier,
             seed: args.seed,
-            rule: format!("{} recursive program shapes: every macro cycle of length 1..={} whose edges are each wrapped by one of 8 scoped constructs (plain, call block, filter block, set block, for, with, if, autoescape) x 3 per-frame work decorations; every include cycle of length 1..={} over 5 placements (top level, loop, macro, block, with+filter); import cycles (top-level, inside macros, macro+include+import); recursive loops over 10 000-deep data, over self-similar data and inside macros; super() chains of 10..1200 templates; block self-calls, caller/higher-order/alias/default-argument/nested-definition recursion; x recursion_limit in {{1,2,3,7,50,250,499,500}} x {{2 MiB thread, main thread}} in an opt-level-0 build{}; each case in a supervised child process. Oracle: unbounded shapes must end with an error whose chain says 'recursion limit exceeded', bounded shapes may also succeed; never a signal, abort, panic or hang. distinct non-trivial = cases that ended in the recursion-limit error", all.len(), args.tier.pick(2, 3), args.tier.pick(2, 3), if args.tier == Tier::Thorough { " and the checked-release build, plus every limit 1..=500 for the non-macro-cycle and length-1 shapes" } else { "" }),
+            rule: format!("{} recursive program shapes: every macro cycle of length 1..={} whose edges are each wrapped by one of 8 scoped constructs (plain, call block, filter block, set block, for, with, if, autoescape) x 3 per-frame work decorations, x 7 things a frame does and gets back from before it recurses (nothing, a helper macro call, one on every other frame, a finished call block, an include, an imported helper, filters and tests); every include cycle of length 1..={} over 5 placements (top level, loop, macro, block, with+filter); import cycles (top-level, inside macros, macro+include+import); recursive loops over 10 000-deep data, over self-similar data and inside macros; super() chains of 10..1200 templates; block self-calls, caller/higher-order/alias/default-argument/nested-definition recursion; x recursion_limit in {{1,2,3,7,50,250,499,500}} x {{2 MiB thread, main thread}} in an opt-level-0 build{}; each case in a supervised child process. Oracle: unbounded shapes must end with an error whose chain says 'recursion limit exceeded', bounded shapes may also succeed; never a signal, abort, panic or hang. distinct non-trivial = cases that ended in the recursion-limit error", all.len(), args.tier.pick(2, 3), args.tier.pick(2, 3), if args.tier == Tier::Thorough { " and the checked-release build, plus every limit 1..=500 for the non-macro-cycle and length-1 shapes" } else { "" }),
             exhaustive: true,
             bound: json!({"limits_quick": LIMITS_Q, "wrappers": WRAPPERS.iter().map(|w| w.0).collect::<Vec<_>>(), "work": WORK.iter().map(|w| w.0).collect::<Vec<_>>()}),
             assumptions: vec!["stack sizes: the platform's 8 MiB main thread and an explicit 2 MiB thread".into()],
